@@ -283,3 +283,109 @@ Lemma ex_choice_forms :
   jws_check_header reg true (h (asc "c-list", PStr (asc "b"))) = Err EValue /\
   jws_check_header reg true (h (asc "c-list", PList [PStr (asc "b"); PStr (asc "c")])) = Err EValue.
 Proof. vm_compute. repeat split; reflexivity. Qed.
+
+(* ---------- entry points: a normal return means every header was checked ---------- *)
+Lemma checked_member_ok step e c parts :
+  checked_member step e c parts = Ok tt ->
+  run_check (entry_rk e) c (entry_cm e) (entry_header e parts) = Ok tt.
+Proof.
+  unfold checked_member.
+  destruct (run_check (entry_rk e) c (entry_cm e) (entry_header e parts)) as [[]|x]; simpl; [reflexivity | discriminate].
+Qed.
+
+Lemma members_loop_ok step e c ms :
+  members_loop step e c ms = Ok tt ->
+  forall parts, In parts ms -> run_check (entry_rk e) c (entry_cm e) (entry_header e parts) = Ok tt.
+Proof.
+  induction ms as [|m r IH]; simpl; intros H parts I; [contradiction|].
+  destruct (checked_member step e c m) as [[]|x] eqn:C; simpl in H; [|discriminate].
+  destruct I as [I|I]; [subst; exact (checked_member_ok _ _ _ _ C) | exact (IH H parts I)].
+Qed.
+
+Lemma generic_run_ok pre step post e c ms :
+  generic_run pre step post e c ms = Ok tt ->
+  forall parts, In parts ms -> run_check (entry_rk e) c (entry_cm e) (entry_header e parts) = Ok tt.
+Proof.
+  unfold generic_run. destruct pre as [[]|x]; simpl; [|discriminate].
+  destruct (members_loop step e c ms) as [[]|x] eqn:M; simpl; [|discriminate].
+  intros _. exact (members_loop_ok _ _ _ _ M).
+Qed.
+
+(* jws.validate_compact: whatever the verdict, a normal return means the header was checked *)
+Lemma validate_compact_checks step verify c parts b :
+  validate_compact_run step verify c parts = Ok b ->
+  run_check RJws c false (merge_parts parts) = Ok tt.
+Proof.
+  unfold validate_compact_run. intro H.
+  destruct (checked_member step JwsValidateCompact c parts) as [[]|x] eqn:C; simpl in H; [|discriminate].
+  exact (checked_member_ok _ _ _ _ C).
+Qed.
+
+Lemma deserialize_compact_checks pre step verify c parts :
+  deserialize_compact_run pre step verify c parts = Ok tt ->
+  run_check RJws c false (merge_parts parts) = Ok tt.
+Proof.
+  unfold deserialize_compact_run. destruct pre as [[]|x]; simpl; [|discriminate].
+  destruct (validate_compact_run step verify c parts) as [b|x] eqn:V; simpl; [|discriminate].
+  intros _. exact (validate_compact_checks _ _ _ _ _ V).
+Qed.
+
+Lemma entry_run_checks_impl pre step verify post e c ms :
+  entry_run pre step verify post e c ms = Ok tt ->
+  forall parts, In parts ms ->
+    run_check (entry_rk e) c (entry_cm e) (entry_header e parts) = Ok tt.
+Proof.
+  intros H parts I.
+  destruct e; try exact (generic_run_ok _ _ _ _ _ _ H parts I);
+    destruct ms as [|p [|q r]]; try discriminate H;
+    destruct I as [I|[]]; subst parts; simpl in H.
+  - destruct (validate_compact_run step verify c p) as [b|x] eqn:V; simpl in H; [|discriminate].
+    exact (validate_compact_checks _ _ _ _ _ V).
+  - exact (deserialize_compact_checks _ _ _ _ _ H).
+  - unfold jwt_decode_jws_run in H.
+    destruct (deserialize_compact_run pre step verify c p) as [[]|x] eqn:D; simpl in H; [|discriminate].
+    exact (deserialize_compact_checks _ _ _ _ _ D).
+Qed.
+
+Lemma entry_run_checks pre step verify post e c ms :
+  entry_run pre step verify post e c ms = Ok tt ->
+  forall parts, In parts ms ->
+    run_spec (entry_rk e) c (entry_cm e) (entry_header e parts) = true.
+Proof.
+  intros H parts I. apply run_check_iff. exact (entry_run_checks_impl _ _ _ _ _ _ _ H parts I).
+Qed.
+
+(* and a header that violates the spec makes the entry point fail, whatever the rest does *)
+Lemma entry_run_rejects pre step verify post e c ms parts :
+  In parts ms -> run_spec (entry_rk e) c (entry_cm e) (entry_header e parts) = false ->
+  exists x, entry_run pre step verify post e c ms = Err x.
+Proof.
+  intros I S. destruct (entry_run pre step verify post e c ms) as [[]|x] eqn:H; [|eauto].
+  rewrite (entry_run_checks _ _ _ _ _ _ _ H parts I) in S. discriminate.
+Qed.
+
+Lemma validate_compact_spec step verify c parts b :
+  validate_compact_run step verify c parts = Ok b ->
+  run_spec RJws c false (merge_parts parts) = true.
+Proof. intro H. apply run_check_iff. exact (validate_compact_checks _ _ _ _ _ H). Qed.
+
+Lemma ex_validate_compact :
+  let c := default_cfg RJws in
+  validate_compact_run (fun _ => Ok tt) (Ok true) c
+    [[(asc "alg", PStr (asc "HS256")); (asc "kid", PStr (asc "k"))]] = Ok true /\
+  validate_compact_run (fun _ => Ok tt) (Ok true) c
+    [[(asc "alg", PStr (asc "HS256")); (asc "kid", PInt 123)]] = Err EValue /\
+  entry_run_valid JwsValidateCompact c [[[(asc "alg", PStr (asc "HS256")); (asc "foo", PInt 1)]]] = Err EValue /\
+  entry_run_valid JwtEncodeJws c [[[(asc "alg", PStr (asc "HS256")); (asc "typ", PInt 1)]]] = Err EValue /\
+  entry_run_valid JwtEncodeJws c [[[(asc "alg", PStr (asc "HS256"))]]] = Ok tt.
+Proof. vm_compute. repeat split; reflexivity. Qed.
+
+Lemma consume_checks pre step verify post e c ms :
+  entry_consuming e = true ->
+  entry_run pre step verify post e c ms = Ok tt ->
+  forall parts, In parts ms ->
+    run_spec (entry_rk e) c (entry_cm e) (merge_parts parts) = true.
+Proof.
+  intros C H parts I. pose proof (entry_run_checks _ _ _ _ _ _ _ H parts I) as X.
+  destruct e; try discriminate C; exact X.
+Qed.
